@@ -13,6 +13,7 @@ def main(tier):
     segments.interpolation_shape(P, rep)
     rep.attempt(segments.segment_blend, P, rep)      # down-dip blend by the segment fraction; models receive interpolated values
     segments.section_model_loops(P, rep)
+    rep.attempt(segments.section_index_as_reported, P, rep)   # the section index is the one the trench curve reported
     segments.table_provenance(P, rep)
     asserts.input_indexed_elements(P, rep)
     rep.assumptions.append("that the section fraction is exactly 0 at a coordinate (Newton on the Bezier curve) and the JSON copy mechanics "
